@@ -86,6 +86,22 @@ def _leaves(v, acc=None):
     return acc
 
 
+# aggregates that divide by the number of items: the count inside the result (an integer constant of the symbolic value) must not depend
+# on how the items are grouped either
+COUNT_DIVIDED = ('AVERAGE', 'AVEDEV')
+
+
+def _counts(v, acc=None):
+    acc = acc if acc is not None else []
+    if isinstance(v, Const):
+        if isinstance(v.value, int) and not isinstance(v.value, bool) and v.value >= 2:
+            acc.append(v.value)
+    elif isinstance(v, Atom):
+        for a in v.args:
+            _counts(a, acc)
+    return acc
+
+
 def _r1(model, res):
     n = 0
     for name in ERROR_PROPAGATING:
@@ -122,7 +138,8 @@ def _r2(model, res):
             if isinstance(v, Const):
                 results[sname] = ('const', v.value)
             else:
-                results[sname] = ('leaves', tuple(sorted(_leaves(v))), v.op if isinstance(v, Atom) else None)
+                results[sname] = ('leaves', tuple(sorted(_leaves(v))), v.op if isinstance(v, Atom) else None) + \
+                    ((tuple(sorted(_counts(v))),) if name in COUNT_DIVIDED else ())
             n += 1
         flat = results.get('flat')
         ok = all(r == flat for r in results.values())
